@@ -19,7 +19,6 @@ import (
 	"io"
 	"os"
 	"path/filepath"
-	"sort"
 	"strings"
 	"sync"
 	"testing"
@@ -742,14 +741,36 @@ func TestVerif_C38(t *testing.T) {
 		s.Idx = i + 1
 		scens = append(scens, s)
 	}
-	sort.SliceStable(scens, func(i, j int) bool { return scens[i].Kind > scens[j].Kind }) // scripts first
-	synctest.Test(t, func(t *testing.T) {
-		f := v38NewFix(t)
-		defer os.RemoveAll(f.tmp)
-		for _, sc := range scens {
-			var rec v38Rec
-			if sc.Kind == "script" {
-				rec = f.runScript(sc)
+	var scripts, concs []v38Scen
+	for _, sc := range scens {
+		if sc.Kind == "script" {
+			scripts = append(scripts, sc)
+		} else {
+			concs = append(concs, sc)
+		}
+	}
+	var omu sync.Mutex
+	emit := func(sc v38Scen, rec v38Rec) {
+		omu.Lock()
+		defer omu.Unlock()
+		res.Count("records_"+sc.Kind, 1)
+		out.Write(rec)
+		if len(res.Samples) < 2 || (sc.Kind == "conc" && len(res.Samples) < 4) {
+			res.Sample(rec)
+		}
+	}
+	// scripts: sequential per fixture (they delete files from the repository), several fixtures in parallel
+	var wg sync.WaitGroup
+	workers := kit.Pick(1, 4)
+	for w := 0; w < workers; w++ {
+		wg.Add(1)
+		go func(w int) {
+			defer wg.Done()
+			f := v38NewFix(t)
+			defer os.RemoveAll(f.tmp)
+			for i := w; i < len(scripts); i += workers {
+				sc := scripts[i]
+				rec := f.runScript(sc)
 				nt := false
 				for _, r := range rec.Res {
 					if r.Applied {
@@ -767,20 +788,24 @@ func TestVerif_C38(t *testing.T) {
 						res.Count("load_"+r.Out, 1)
 					}
 				}
-			} else {
-				rec = f.runConc(sc, res)
-				res.Case(fmt.Sprintf("c|%s|%s|%v", sc.FType, sc.Init, sc.Schedule), true)
-				for _, l := range rec.Loaders {
-					res.Count("conc_"+l.Level+"_"+l.Out, 1)
-				}
-				res.Count("conc_steps_skipped", rec.Skipped)
-				res.Count("conc_inner_downloads", rec.Inner)
+				emit(sc, rec)
 			}
-			res.Count("records_"+sc.Kind, 1)
-			out.Write(rec)
-			if len(res.Samples) < 2 || (sc.Kind == "conc" && len(res.Samples) < 4) {
-				res.Sample(rec)
+		}(w)
+	}
+	// concurrent schedules: one synctest bubble with its own fixture
+	synctest.Test(t, func(t *testing.T) {
+		f := v38NewFix(t)
+		defer os.RemoveAll(f.tmp)
+		for _, sc := range concs {
+			rec := f.runConc(sc, res)
+			res.Case(fmt.Sprintf("c|%s|%s|%v", sc.FType, sc.Init, sc.Schedule), true)
+			for _, l := range rec.Loaders {
+				res.Count("conc_"+l.Level+"_"+l.Out, 1)
 			}
+			res.Count("conc_steps_skipped", rec.Skipped)
+			res.Count("conc_inner_downloads", rec.Inner)
+			emit(sc, rec)
 		}
 	})
+	wg.Wait()
 }
